@@ -71,6 +71,10 @@ type Node struct {
 	// async storage threads
 	AppendQ []*pb.Message
 	ApplyQ  []*pb.Message
+	// digests of the queued messages as they were when Ready handed them out: what a Ready hands out must not change
+	// afterwards (slices aliasing the node's live log would)
+	AppendDig []uint64
+	ApplyDig  []uint64
 
 	// application state machine
 	Applied     uint64            // last applied index
@@ -183,6 +187,7 @@ func (n *Node) Start(applied uint64, restart bool) bool {
 	cfg.Logger = quietLogger
 	n.Inc++
 	n.AppendQ, n.ApplyQ = nil, nil
+	n.AppendDig, n.ApplyDig = nil, nil
 	n.Applied = applied
 	n.NextApply = applied + 1
 	op := "restart " + tokConfig(&cfg)
@@ -392,4 +397,5 @@ func (n *Node) Crash() {
 	n.RN = nil
 	n.Alive = false
 	n.AppendQ, n.ApplyQ = nil, nil
+	n.AppendDig, n.ApplyDig = nil, nil
 }
